@@ -229,3 +229,43 @@ B("stored packet resent from setWindowSize-like API", ["C08"],
 N("dup passed positionally", ["C08"], [(PS, "        self._retrySubscribe(request,  dup=True)", "        self._retrySubscribe(request, True)")])
 N("dup patch written with 8*dup", ["C08"],
   [(PS, "        request.encoded[0] |=  (dup << 3)   # set the dup flag\n        request.dup = dup", "        request.encoded[0] |=  (dup * 8)\n        request.dup = dup")])
+
+# ---------------------------------------------------------------- C09
+B("handlePUBREC without cancel", ["C09"],
+  [(PS, "            request.alarm.cancel()\n            del self.factory.windowPublish[self.addr][response.msgId]\n            reply = PUBREL()", "            del self.factory.windowPublish[self.addr][response.msgId]\n            reply = PUBREL()")], {"C09": ["Q-ORDER"]})
+B("handlePUBREC without del", ["C09"],
+  [(PS, "            request.alarm.cancel()\n            del self.factory.windowPublish[self.addr][response.msgId]\n            reply = PUBREL()", "            request.alarm.cancel()\n            reply = PUBREL()")], {"C09": ["Q-ORDER"]})
+B("PUBREL written before the PUBLISH leaves the window", ["C09"],
+  [(PS, "            request.alarm.cancel()\n            del self.factory.windowPublish[self.addr][response.msgId]\n            reply = PUBREL()", "            reply = PUBREL()"),
+   (PS, "            self._retryRelease(reply, False)\n", "            self._retryRelease(reply, False)\n            request.alarm.cancel()\n            del self.factory.windowPublish[self.addr][response.msgId]\n")], {"C09": ["Q-ORDER"]})
+B("resume applies the PUBLISH retry to release-window entries", ["C09"],
+  [(PS, "        for _, reply in self.factory.windowPubRelease[self.addr].items():\n            self._retryRelease(reply, dup=True)", "        for _, reply in self.factory.windowPubRelease[self.addr].items():\n            self._retryPublish(reply, dup=True)")], {"C09": ["Q-RETRY"]})
+B("handlePUBACK also empties the release window", ["C09"],
+  [(PS, "            del self.factory.windowPublish[self.addr][response.msgId]\n            self._refillPublish(dup=False)", "            del self.factory.windowPublish[self.addr][response.msgId]\n            self.factory.windowPubRelease[self.addr].pop(response.msgId, None)\n            self._refillPublish(dup=False)")], {"C09": ["Q-WHO"]})
+B("the PUBLISH itself is parked in the release window", ["C09"],
+  [(PS, "            self.factory.windowPubRelease[self.addr][reply.msgId] = reply\n", "            self.factory.windowPubRelease[self.addr][reply.msgId] = reply\n            self.factory.windowPubRelease[self.addr][request.msgId] = request\n")], {"C09": ["Q-TYPES", "Q-WHO"]})
+B("PUBREL sent from publish()", ["C09"],
+  [(PS, "        self.factory.queuePublishTx[self.addr].append(request)\n", "        self.factory.queuePublishTx[self.addr].append(request)\n        rel = PUBREL()\n        rel.msgId = 1\n        self.transport.write(rel.encode())\n")], {"C09": ["Q-WHO"]})
+
+# ---------------------------------------------------------------- C10
+B("popleft -> pop", ["C10"], [(PS, "            request = self.factory.queuePublishTx[cnx].popleft()", "            request = self.factory.queuePublishTx[cnx].pop()")], {"C10": ["W-FIFO"]})
+B("refill guard <=", ["C10"], [(PS, "len(self.factory.windowPublish[cnx]) < self._window:", "len(self.factory.windowPublish[cnx]) <= self._window:")], {"C10": ["W-BOUND"]})
+B("counted-loop refill (D11 re-introduced)", ["C10"],
+  [(PS, "        while self.factory.queuePublishTx[cnx] and len(self.factory.windowPublish[cnx]) < self._window:",
+    "        N = min(self._window - len(self.factory.windowPublish[cnx]), len(self.factory.queuePublishTx[cnx]))\n        for i in range(0,N):")], {"C10": ["W-BUDGET"]})
+B("handlePUBACK without refill", ["C10"],
+  [(PS, "            del self.factory.windowPublish[self.addr][response.msgId]\n            self._refillPublish(dup=False)", "            del self.factory.windowPublish[self.addr][response.msgId]")], {"C10": ["W-TRIGGER"]})
+B("appendleft in doPublish", ["C10"], [(PS, "        self.factory.queuePublishTx[self.addr].append(request)", "        self.factory.queuePublishTx[self.addr].appendleft(request)")], {"C10": ["W-FIFO"]})
+B("doPublish rejecting on a full window", ["C10"],
+  [(PS, "        if not ( 0<= request.qos < 3):\n            raise QoSValueError(\"publish()\",request.qos)", "        if not ( 0<= request.qos < 3):\n            raise QoSValueError(\"publish()\",request.qos)\n        if len(self.factory.windowPublish[self.addr]) >= self._window:\n            raise MQTTWindowError(\"publish\", self._window)")], {"C10": ["W-ACCEPT"]})
+B("popped request sent twice", ["C10"],
+  [(PS, "            self._retryPublish(request, dup)\n\n\n    def _retryPublish", "            self._retryPublish(request, dup)\n            self._retryPublish(request, dup)\n\n\n    def _retryPublish")], {"C10": ["W-ONCE"]})
+B("window insertion outside the refill loop", ["C10"],
+  [(PS, "        self.factory.queuePublishTx[self.addr].append(request)\n", "        self.factory.queuePublishTx[self.addr].append(request)\n        if request.msgId:\n            self.factory.windowPublish[self.addr][request.msgId] = request\n")], {"C10": ["W-BOUND"]})
+B("refill without the window test", ["C10"],
+  [(PS, "        while self.factory.queuePublishTx[cnx] and len(self.factory.windowPublish[cnx]) < self._window:", "        while self.factory.queuePublishTx[cnx]:")], {"C10": ["W-BOUND"]})
+N("queue aliased to a local", ["C10"],
+  [(PS, "        while self.factory.queuePublishTx[cnx] and len(self.factory.windowPublish[cnx]) < self._window:\n            request = self.factory.queuePublishTx[cnx].popleft()",
+    "        queue = self.factory.queuePublishTx[cnx]\n        while queue and len(self.factory.windowPublish[cnx]) < self._window:\n            request = queue.popleft()")])
+N("window test flipped", ["C10"],
+  [(PS, "len(self.factory.windowPublish[cnx]) < self._window:", "self._window > len(self.factory.windowPublish[cnx]):")])
